@@ -75,4 +75,5 @@ InExportFrag(m) ==
 \* dependency's simplify_formula makes of them
 DepModel(m) == [m EXCEPT !.ctcs = [i \in DOMAIN m.ctcs |-> [m.ctcs[i] EXCEPT !.ast = DepSimplify(@)]]]
 ModelHasDepOps(m) == \E i \in DOMAIN m.ctcs : HasDepOps(m.ctcs[i].ast)
+ModelHasRawRight(m) == \E i \in DOMAIN m.ctcs : HasRawRight(m.ctcs[i].ast)
 =============================================================================
